@@ -230,11 +230,69 @@ def fv_in(x, container, negate=False):
     return r
 
 
+def fv_fstr(*parts):
+    """f-string evaluation that also works for symbolic (finite-choice) values: parts are literal strings or
+    (value, conversion, format_spec) triples"""
+    cvm = _cv()
+
+    def fmt(v, conv, spec):
+        if conv == ord("r"):
+            v = repr(v)
+        elif conv == ord("s"):
+            v = builtins.str(v)
+        elif conv == ord("a"):
+            v = ascii(v)
+        return format(v, spec or "")
+
+    vals = [p_[0] for p_ in parts if isinstance(p_, tuple)]
+    specs = [p_[2] for p_ in parts if isinstance(p_, tuple)]
+    if any(isinstance(v, cvm.CV) for v in vals + specs):
+        flat = []
+        for p_ in parts:
+            flat.extend(p_ if isinstance(p_, tuple) else (p_,))
+
+        def build(*f):
+            out, i = [], 0
+            for p_ in parts:
+                if isinstance(p_, tuple):
+                    out.append(fmt(f[i], f[i + 1], f[i + 2]))
+                    i += 3
+                else:
+                    out.append(f[i])
+                    i += 1
+            return "".join(out)
+
+        return cvm.apply(build, *flat)
+    return "".join(fmt(*p_) if isinstance(p_, tuple) else p_ for p_ in parts)
+
+
 class _JoinRewriter(ast.NodeTransformer):
     """'<literal>'.join(x)  ->  fv_join_hook('<literal>', x): str.join is a C method that rejects proxies"""
 
     def __init__(self):
         self.hits = 0
+
+    def visit_JoinedStr(self, node):
+        self.generic_visit(node)
+        if not any(isinstance(v, ast.FormattedValue) for v in node.values):
+            return node
+        args = []
+        for v in node.values:
+            if isinstance(v, ast.FormattedValue):
+                spec = v.format_spec if v.format_spec is not None else ast.Constant(None)
+                args.append(ast.Tuple(elts=[v.value, ast.Constant(v.conversion), spec], ctx=ast.Load()))
+            else:
+                args.append(v)
+        self.hits += 1
+        return ast.copy_location(ast.Call(func=ast.Name(id="fv_fstr_hook", ctx=ast.Load()), args=args, keywords=[]), node)
+
+    def visit_FormattedValue(self, node):
+        # format specs are themselves JoinedStr: rewrite inner expressions only
+        node.value = self.visit(node.value)
+        if node.format_spec is not None:
+            fs = self.visit(node.format_spec)
+            node.format_spec = fs
+        return node
 
     def visit_Compare(self, node):
         self.generic_visit(node)
@@ -262,7 +320,8 @@ def _rewritten(fn, clsname=None):
         src = textwrap.dedent(inspect.getsource(fn))
     except (OSError, TypeError):
         return None
-    if (".join(" not in src and " in \"" not in src and " in '" not in src) or "super()" in src or fn.__closure__:
+    if (".join(" not in src and " in \"" not in src and " in '" not in src and 'f"' not in src and "f'" not in src) \
+            or "super()" in src or fn.__closure__:
         return None
     tree = ast.parse(src)
     rw = _JoinRewriter()
@@ -271,6 +330,10 @@ def _rewritten(fn, clsname=None):
         return None
     fdef = tree.body[0]
     fdef.decorator_list = []
+    # annotations may name things of the original class scope: they are not needed to run the code
+    fdef.returns = None
+    for a in fdef.args.args + fdef.args.kwonlyargs + fdef.args.posonlyargs + [x for x in (fdef.args.vararg, fdef.args.kwarg) if x]:
+        a.annotation = None
     if clsname:
         # compile inside a class body of the same name so that private names (__x) are mangled as in the original
         tree = ast.Module(body=[ast.ClassDef(name=clsname, bases=[], keywords=[], body=[fdef], decorator_list=[])], type_ignores=[])
@@ -278,6 +341,7 @@ def _rewritten(fn, clsname=None):
     g = fn.__globals__
     g["fv_join_hook"] = fv_join
     g["fv_in_hook"] = fv_in
+    g["fv_fstr_hook"] = fv_fstr
     ns = {}
     code = compile(tree, inspect.getsourcefile(fn) or "<rewritten>", "exec")
     exec(code, g, ns)
